@@ -42,11 +42,23 @@ LineOK(e) == CASE e.k = "name"  -> NameOK(e)
 (* (one TLC worker each): chain w visits lines w, w+Stride, w+2*Stride, ...    *)
 (* A line the grammar does not allow violates the invariant LinesOK; TLC then  *)
 (* prints the offending index l.                                               *)
-CONSTANT Stride
+CONSTANTS Stride,
+          NLines     \* the number of lines the orchestrator wrote into the file
 
-TInit == l \in 1..Stride
+(* The log TLC sees must be the log that was written (a short read would make *)
+(* the judgement vacuous): checked, and printed, before anything else.       *)
+ASSUME TraceComplete == PrintT(<<"TRACE-LINES", Len(Trace), NLines>>) /\ Len(Trace) = NLines
+
+
+(* TLC evaluates initial states (and their invariants) in its main thread,    *)
+(* whose stack is small: a long line (hundreds of runs, deep recursion) as    *)
+(* one of the first lines of a chunk overflowed it, now and then, depending    *)
+(* on how much had been compiled yet.  So the chains start one step BEFORE     *)
+(* the log, on indices <= 0 that stand for no line; every real line is judged  *)
+(* in a successor state, i.e. by a worker thread (stack size set by -Xss).     *)
+TInit == l \in (1 - Stride)..0
 TNext == l <= Len(Trace) /\ l' = l + Stride
 TSpec == TInit /\ [][TNext]_l
 
-LinesOK == l <= Len(Trace) => LineOK(Ev)
+LinesOK == (l >= 1 /\ l <= Len(Trace)) => LineOK(Ev)
 =============================================================================
